@@ -14,7 +14,9 @@ PROPS["C15"] = {
     "partial": "sets_exact against the declarative set_den is proved only up to the generated equation system: a SetsOk result is the unique least (stable) solution of the "
                "system the model generated (C15_sets_least_solution_partial) and a SetsErr result lists exactly the generated complements on cycles (C15_self_complement_rejected), "
                "under the executable certificate sets_certb evaluated on every case (node list well formed; check_scc / check_onstack accept the Tarjan output: Tarjan itself is not proved). "
-               "Not proved: that the demand-driven generation (instantiate / translate / process_key / queue_loop) builds the system whose least solution at (op, sym) is op_in op sym; "
+               "Closed for first / last (this round): C15_generated_first_last_exact - whenever the proved-sound executable check gen_keys_ok accepts the generated system (key nodes of first/last: singleton for a terminal, union of exactly the key nodes prescribed by the rules up to the first non-nullable symbol for a nonterminal; nullable set = nullable_in), every stable solution is exactly first_in / last_in at these nodes; "
+               "C15_sets_exact_first_last - a SetsOk result is exactly set_den for every top-level `first s` / `last s` under sets_certb and sets_gen_ok (both evaluated on every case; sets_gen_ok on models without reachable set nonterminals). "
+               "Not proved: the same step for the keys any / follow / precede and for the union / intersection / complement trees built by translate (compared per run with the eager declarative system and, for closed expressions, with the proved evaluation); "
                "a declarative meaning for named (mutually recursive) sets and set nonterminals feeding back into first/last/any (naive-solver oracle only); termination of the slow loop within the model's fuel "
                "(hypothesis c_oof = false, implied by a SetsOk result); the position of afterErr among the sets and compiler.go wiring are covered by c15.tm only",
     "level_text": "Universal Coq theorems: (1) isNullable returns true exactly when the rule body denotes the empty string; (2) the oracle tables are exactly the inductive definitions nullable_in, first_in, last_in, "
@@ -22,7 +24,7 @@ PROPS["C15"] = {
                   "solution: for every well-formed node list without a complement on a dependency cycle the computed values are the stable solution (= least solution of the equations with complement operands fixed), "
                   "which satisfies every equation, is below every closed valuation and is unique; (4) the solver reports exactly the complement nodes that depend on themselves; (3) and (4) under the proved-sound "
                   "Tarjan-contract certificate; (5) lifted through the model of ResolveSets: a result is the unique least solution of the generated system, an error lists exactly the generated self-dependent complements; "
-                  "(6) afterErr denotes follow(error) and IsRecovering iff it is non-empty (plain grammars). "
+                  "(6) afterErr denotes follow(error) and IsRecovering iff it is non-empty (plain grammars); (7) at the first / last keys the generated system IS the declarative one: under the proved-sound check sets_gen_ok every top-level `first s` / `last s` returned by the model of ResolveSets equals set_den (first_in / last_in over the reachable rules). "
                   "Per run: the step-by-step model of ResolveSets equals the implementation on every case, the certificate of (5) holds on every case, and the implementation's result equals "
                   "the naive stratified fixpoint of the eagerly generated declarative equation system (all five operators, union/intersection/complement, set nonterminals feeding back into "
                   "first/last/any, mutually recursive named sets), and the proved evaluation (tables + set algebra) for every closed expression over plain rules; also end to end through compiler.Compile (Grammar.Sets, afterErr, IsRecovering).",
